@@ -653,6 +653,58 @@ def rule_lzw_variant(ctx, f):
               % (fmt_set(vals(early)), fmt_set(vals(plain))), db["span"], detail="EarlyChange != 0 -> early switch")
 
 
+def rule_geometry(ctx, f):
+    ctx.rule("C05-USE-geometry", "predictor geometry of any size is decoded: /Colors and /Columns are rejected only when they are below 1 (no upper limit, no range test) - "
+             "the property quantifies over any colours and columns")
+    b = f.body("enc::flate_decode")
+    if b is None:
+        ctx.lost("C05-USE-geometry", "enc::flate_decode")
+        return
+    bodies = [b]
+    for bi, t in F.calls(b):
+        cb = f.bodies.get(t.get("resolved") or "")
+        if cb is not None and t.get("resolved_local") and not cb.get("pub") and cb["_file"] == b["_file"] and cb not in bodies:
+            bodies.append(cb)
+    n = 0
+    bad = []
+    for bb in bodies:
+        fl = Flow(bb)
+        for i, j, st in F.stmts(bb):
+            if st[0] == "assign" and st[2][0] == "binop" and st[2][1] in ("Lt", "Le", "Gt", "Ge", "Eq", "Ne"):
+                for side, o in ((0, st[2][2]), (1, st[2][3])):
+                    other = st[2][3] if side == 0 else st[2][2]
+                    c = F.const_int(other)
+                    if c is None:
+                        continue
+                    fs = set()
+                    l = F.op_local(o)
+                    if l is not None:
+                        fl.origins(l, fields=fs, passthrough=())
+                    pl = F.op_place(o)
+                    if pl:
+                        Flow._note_fields(pl, fs)
+                    which = fs & {"n_components", "columns"}
+                    if len(which) != 1:
+                        continue
+                    n += 1
+                    op = st[2][1] if side == 0 else {"Lt": "Gt", "Le": "Ge", "Gt": "Lt", "Ge": "Le", "Eq": "Eq", "Ne": "Ne"}[st[2][1]]
+                    lower = (op in ("Lt", "Ge") and c == 1) or (op in ("Le", "Gt", "Eq", "Ne") and c == 0)
+                    if not lower:
+                        bad.append("%s %s %d" % (sorted(which)[0], op, c))
+        for bi, t in F.calls(bb):
+            if last_seg(F.callee_name(t)) == "contains" and "Range" in F.callee_name(t) + t.get("callee_full", ""):
+                fs = set()
+                for a in t["args"]:
+                    l = F.op_local(a)
+                    if l is not None:
+                        fl.origins(l, fields=fs)
+                if fs & {"n_components", "columns"}:
+                    bad.append("%s tested with a range" % sorted(fs & {"n_components", "columns"})[0])
+    ctx.floor("C05-USE-geometry", n, 2, "constant comparisons of /Colors and /Columns")
+    ctx.check(not bad, "C05-USE-geometry", "enc::flate_decode#lower-bound-only", "predictor geometry is limited from above or to a range (%s): valid data with more colours / "
+              "columns is refused" % ", ".join(bad), b["span"], detail="Colors < 1 || Columns < 1 -> error, nothing else")
+
+
 def run(ctx):
     f = F.load("default")
     ctx.count("bodies", len(f.bodies))
@@ -660,9 +712,12 @@ def run(ctx):
     rule_dispatch(ctx, f)
     rule_chain(ctx, f)
     rule_pairing(ctx, f)
+    import c18
+    c18.rule_vec_reader(ctx, f, "C05-G-pair")
     rule_bytes(ctx, f)
     rule_predictor(ctx, f)
     rule_lzw_variant(ctx, f)
+    rule_geometry(ctx, f)
     rule_use(ctx, f)
     return ctx.finish(
         "Static analysis of MIR facts of enc.rs / stream.rs / file.rs. Tables are extracted from the program: string-match arms "
